@@ -168,10 +168,12 @@ func (ent *entityNode) innerRef(name string) *schema_j5pb.Field {
 func (ent *entityNode) findStatus(end string) (string, bool) {
 	for _, status := range ent.Schema.Status {
 		if status.Name == end {
-			return fmt.Sprintf("%s_STATUS_%s",
-				strcase.ToScreamingSnake(ent.Schema.Name),
-				strcase.ToScreamingSnake(status.Name),
-			), true
+			// the name the status enum gives this option (see enumBuilder.addValue)
+			prefix := strcase.ToScreamingSnake(ent.Schema.Name) + "_STATUS_"
+			if strings.HasPrefix(status.Name, prefix) {
+				return status.Name, true
+			}
+			return prefix + status.Name, true
 		}
 	}
 	return "", false
